@@ -655,7 +655,7 @@ vx_fate vx_fork_call(uint64_t (*fn)(void *), void *arg, int timeout_s) {
   if (r.fate == 6) return r;
   if (WIFEXITED(st)) { r.fate = (WEXITSTATUS(st) == 0 && FC->returned) ? 0 : 5; return r; }
   r.sig = WTERMSIG(st);
-  if (r.sig == SIGABRT) r.fate = r.die_entered && !strstr(buf, "ERROR: AddressSanitizer") && !strstr(buf, "runtime error:") ? 1 : 2;
+  if (r.sig == SIGABRT) r.fate = (strstr(buf, "ERROR: AddressSanitizer") || strstr(buf, "runtime error:")) ? 2 : r.die_entered ? 1 : 7;
   else if (r.sig == SIGSEGV || r.sig == SIGBUS) r.fate = 3;
   else r.fate = 4;
   return r;
